@@ -100,6 +100,8 @@ class StubTree:
         for i, g in enumerate(self.geometries):
             if g is None:
                 continue
+            if isinstance(geometry, SymClip) and geometry.is_empty:
+                continue                          # an empty geometry intersects nothing
             if bool(self._var(predicate, i)):     # forks
                 hits.append(i)
         if self.order == 'reverse':
@@ -142,10 +144,19 @@ class SymClip:
     directly - covers / contains (of the dataset's box), intersects / disjoint (of one cell polygon) - answer from
     those; anything else is reported as not modelled."""
     geom_type = 'Polygon'
-    is_empty = False
 
-    def __init__(self, polygons, hits, covers_all):
+    def __init__(self, polygons, hits, covers_all, areal=True, is_empty=False):
         self.polygons, self.hits, self.covers_all = polygons, hits, covers_all
+        self.areal = areal          # Bool: the geometry has an area (polygons) or not (points, lines)
+        self.is_empty = is_empty
+
+    def buffer(self, distance, *a, **k):
+        if distance != 0:
+            raise HarnessError('SymClip.buffer(d != 0) is not modelled')
+        # a zero-width buffer returns an areal geometry as it is and turns points and lines into the empty polygon
+        if bool(self.areal):
+            return self
+        return SymClip(self.polygons, [False] * len(self.hits), False, True, is_empty=True)
 
     def _cell(self, other):
         for n, p in enumerate(self.polygons):
@@ -166,13 +177,19 @@ class SymClip:
         n = self._cell(other)
         if n is None:
             raise HarnessError('SymClip.intersects of something that is not a cell polygon is not modelled')
-        return bool(self.hits[n])
+        return False if self.is_empty else bool(self.hits[n])
 
     def disjoint(self, other):
         return not self.intersects(other)
 
     def __getattr__(self, name):
         raise HarnessError(f'SymClip.{name} is not modelled')
+
+
+def of_dimension(clips, areal):
+    """the realisations of a hit pattern that have an area (boxes, hulls) or that have none (points, lines)"""
+    keep = [c for c in clips if (c.area > 0) == bool(areal)]
+    return keep or clips
 
 
 def covering_geometry(polygons):
